@@ -27,6 +27,7 @@ TUS = {
     "t_fround": {"sources": ["t_fround.cpp"], "parts": FLT_PARTS, "cfg_flags": exh_quick_flags, "shards": {"quick": {"f32": 6}, "thorough": {"f32": 12, "f64": 2}}},
     "t_fmanip": {"sources": ["t_fmanip.cpp"], "parts": FLT_PARTS, "shards": {"thorough": {"f32": 5}}},
     "t_fclass": {"sources": ["t_fclass.cpp"], "parts": FLT_PARTS, "cfg_flags": exh_quick_flags, "shards": {"quick": {"f32": 6}, "thorough": {"f32": 6}}},
+    "t_mask": {"sources": ["t_mask.cpp"], "parts": INT_PARTS + FLT_PARTS},
     "t_select": {"sources": ["t_select.cpp"], "parts": INT_PARTS + FLT_PARTS},
 }
 
@@ -160,5 +161,18 @@ PROPS = {
                 "zeros, subnormals, infinities); KF tuples in every lane. non-trivial: NaN, infinite, zero, subnormal or negative operand; equal operands.",
         "explanation": "classification and quiet comparison functions on every bit pattern / pair against the <cmath> macros",
         "assumptions": ["glibc <cmath> classification macros are the reference"],
+    },
+    "C03": {
+        "tus": ["t_mask"],
+        "configs": int_cfgs,
+        "rule": "states = distinct concrete representations (raw bytes) of each of the 40 mask types; initial states: mask(false), mask(true), mask(std::array) for every "
+                "one of the 2^N lane patterns (N <= 16) or the structured MASK(N) alphabet (N = 32/64), mask(vector) for vectors holding {0,1,MIN,MAX,-0.0,NaN,inf,denormal,...} "
+                "in each lane position; transitions: !, &=, |=, ^=, &, |, ^, &&, || against the generator set (all-false, all-true, single lanes, alternating, low half), "
+                "insert<I>(m,b) for every I and both b, assignment from bool; search to closure for N <= 16 and to depth 1 (quick) / 2 (thorough) for N = 32/64. "
+                "non-trivial: the state / expected result has both set and clear lanes.",
+        "explanation": "breadth-first search over reachable mask representations calling the real operations; after every transition alpha(state) (lane i = extract<i>) is compared with "
+                       "an array-of-bool model, and in every new state count/any/all/none, ==/!=, Vector(mask), mask(Vector(mask)), set_bits, keep/clear/blend, inequality with every "
+                       "one-lane neighbour, canonical raw representation and 'equal lanes implies ==' are checked",
+        "assumptions": ["a failing BFS case is replayed by repeating the deterministic search for its subject"],
     },
 }
